@@ -2,6 +2,7 @@
   C07 — every part fits one SMS and carries a correct, parseable concatenation header.
 -/
 import SmsVerif.Lemmas.Split
+import SmsVerif.Lemmas.SplitCount
 import SmsVerif.Props.C14
 
 namespace SmsVerif.C07
@@ -91,6 +92,64 @@ theorem cutPoints_plain_length (d : List Nat) (per : Nat) (hper : 0 < per) (fuel
         have : d.length - b + per - 1 = (d.length - (b + per) + per - 1) + per := by omega
         rw [this, Nat.add_div_right _ hper]
 
+/-! ### how many parts, for every content (Lemmas/SplitCount.lean)
+
+The rules move a cut back by at most `s` units: 0 (plain), 1 (GSM escape), 2 (UCS-2 surrogate
+pair), 3 (GB18030 four-octet character).  That alone bounds the number of parts from both sides
+and fixes when the 255-part refusal can and cannot happen; in between the real cuts decide. -/
+
+/-- **part_count_bounds** : ⌈n/per⌉ ≤ parts ≤ ⌈n/(per-s)⌉ for a rule backing up at most `s` units -/
+theorem C07_part_count_bounds (bnd : Boundary) (d : List Nat) (per s : Nat) (hs : s < per)
+    (hb : BacksUpAtMost bnd d per s) :
+    d.length ≤ (cutPoints bnd d per (d.length + 1) 0).length * per ∧
+    (cutPoints bnd d per (d.length + 1) 0).length * (per - s) < d.length + (per - s) := by
+  constructor
+  · have := partition_lower per d.length _ 0
+      (cutPoints_partition bnd d per (by omega) (d.length + 1) 0 (Nat.zero_le _) (by omega))
+    simpa using this
+  · simpa using cutPoints_upper bnd d per s hs hb (d.length + 1) 0
+
+/-- **accepted_when_short_parts_suffice** : a message that fits 255 parts even if every part is cut
+    `s` units short is never refused -/
+theorem C07_accepted_when_short_parts_suffice (bnd : Boundary) (d : List Nat) (per s ref : Nat) (hs : s < per)
+    (hb : BacksUpAtMost bnd d per s) (hn : d.length ≤ 255 * (per - s)) :
+    ∃ parts, splitUnits bnd d per ref = .ok parts := by
+  have h := (C07_part_count_bounds bnd d per s hs hb).2
+  have hk : (cutPoints bnd d per (d.length + 1) 0).length < 256 := by
+    apply Nat.lt_of_mul_lt_mul_right (a := per - s)
+    omega
+  have : ¬ (cutPoints bnd d per (d.length + 1) 0).length > 255 := by omega
+  simp [splitUnits, this]
+
+/-- **refused_when_full_parts_do_not_suffice** : a message longer than 255 full parts is refused,
+    whatever the rule does -/
+theorem C07_refused_when_full_parts_do_not_suffice (bnd : Boundary) (d : List Nat) (per ref : Nat) (hper : 0 < per)
+    (hn : 255 * per < d.length) : splitUnits bnd d per ref = .error .tooManyParts := by
+  apply C07_too_many_parts_refused
+  have := partition_lower per d.length _ 0
+    (cutPoints_partition bnd d per hper (d.length + 1) 0 (Nat.zero_le _) (by omega))
+  simp only [Nat.sub_zero] at this
+  apply Nat.lt_of_mul_lt_mul_right (a := per)
+  omega
+
+/-- the four rules of `longsms.go` satisfy the hypothesis, for every content and capacity -/
+theorem C07_rules_back_up (d : List Nat) (per : Nat) :
+    BacksUpAtMost noBoundary d per 0 ∧ BacksUpAtMost gsmBoundary d per 1 ∧
+    BacksUpAtMost ucs2Boundary d per 2 ∧ BacksUpAtMost gbBoundary d per 3 :=
+  ⟨noBoundary_backs d per, gsmBoundary_backs d per, ucs2Boundary_backs d per, gbBoundary_backs d per⟩
+
+/-- with the constants of the code: UCS-2 up to 255·132 octets, GB18030 up to 255·131, GSM 7-bit up to
+    255·152 septets are always split; beyond 255·134 octets (255·153 septets) always refused -/
+theorem C07_refusal_window_ucs2 (d : List Nat) (ref : Nat) :
+    (d.length ≤ 33660 → ∃ parts, splitUnits ucs2Boundary d 134 ref = .ok parts) ∧
+    (34170 < d.length → splitUnits ucs2Boundary d 134 ref = .error .tooManyParts) :=
+  ⟨fun h => C07_accepted_when_short_parts_suffice _ d 134 2 ref (by omega) (ucs2Boundary_backs d 134) (by omega),
+   fun h => C07_refused_when_full_parts_do_not_suffice _ d 134 ref (by omega) (by omega)⟩
+
+/-- inside the window the naive count ⌈n/per⌉ is not the number of parts: three surrogate pairs,
+    capacity 6 → three parts, not two -/
+example : (cutPoints ucs2Boundary [0xD8, 0, 0xDC, 0, 0xD8, 0, 0xDC, 0, 0xD8, 0, 0xDC, 0] 6 13 0).length = 3 := by decide
+
 /-! ### the header parser, on arbitrary octets -/
 
 /-- **parse_hdr6** -/
@@ -176,6 +235,11 @@ open SmsVerif.C07
 #print axioms C07_header_fields
 #print axioms C07_too_many_parts_refused
 #print axioms cutPoints_plain_length
+#print axioms C07_part_count_bounds
+#print axioms C07_accepted_when_short_parts_suffice
+#print axioms C07_refused_when_full_parts_do_not_suffice
+#print axioms C07_rules_back_up
+#print axioms C07_refusal_window_ucs2
 #print axioms C07_parse_hdr6
 #print axioms C07_parse_hdr7
 #print axioms C07_parse_part
